@@ -14,7 +14,7 @@ COQ_CASE_TYPE = "M_Rel.case"
 COQ_CHECK = "M_Rel.check_case"
 OBLIGATIONS = ["set_value_list_spec", "set_value_dict_spec", "set_value_forms_agree",
                "join_spec", "join_scope", "projection_spec", "slice_spec", "generate_assignment_complete"]
-N_QUICK, N_THOROUGH = 600, 12000
+N_QUICK, N_THOROUGH = 600, 6000
 SHARD = 150
 RULE = ("seeded random matrix relations over 0-4 variables (domains of 1-3 distinct, unordered "
         "integer values) with int, float, mixed, 2^31-boundary, 2^40-scale and +/-inf tables; "
